@@ -134,6 +134,11 @@ def check_property(pid, tier, seed, project=None, cache=None, replay=None, quiet
         say('VIOLATION property=%s replay=%s' % (pid, rp))
     for rname, err in errors:
         say('ANALYSIS-ERROR property=%s rule=%s %s' % (pid, rname, err))
+    n_undecided = 0
+    for r in results:
+        for what, why in r.undecideds:
+            n_undecided += 1
+            say('UNDECIDED property=%s rule=%s `%s`: shape not recognised, obligation not decided (%s)' % (pid, r.rule, what[:90], why[:110]))
 
     # ---- evidence
     obligations = sum(r.instances for r in results)
@@ -152,7 +157,8 @@ def check_property(pid, tier, seed, project=None, cache=None, replay=None, quiet
         'explanation': spec['explanation'],
         'technique': 'static analysis of the source tree (ast): ' + spec.get('technique', ''),
         'obligations': obligations,
-        'discharged': obligations - n_find,
+        'discharged': obligations - n_find - sum(len(r.undecideds) for r in results),
+        'undecided': [{'rule': r.rule, 'obligation': w, 'expected': y} for r in results for w, y in r.undecideds],
         'evaluations': max(obligations, 1),
         'distinct_nontrivial': max(len({(r.rule, str(s)) for r in results for s in r.samples}), 0),
         'rule': 'one obligation per rule instance (call site, store, table entry, path, loop ...) found in the '
@@ -160,7 +166,7 @@ def check_property(pid, tier, seed, project=None, cache=None, replay=None, quiet
         'samples': samples[:40],
         'rules': [{
             'rule': r.rule, 'clause': r.clause, 'statement': r.text, 'instances': r.instances,
-            'findings': len(r.findings), 'floor': r.floor, 'error': r.error,
+            'findings': len(r.findings), 'undecided': len(r.undecideds), 'floor': r.floor, 'error': r.error,
             'stats': r.stats, 'notes': r.notes, 'wall_s': round(r.wall, 3)} for r in results],
         'not_decided': spec.get('not_decided', []),
         'modules_consulted': files,
